@@ -90,14 +90,17 @@ Fixpoint find_nl (s : str) : option nat :=
               else match find_nl r with Some k => Some (S k) | None => None end
   end.
 
+Definition s_begin : str := lit "begin".
+Definition s_end : str := lit "end".
+
 (** the token that starts at a non-whitespace character: its length *)
 Definition tok_len (c : N) (r : str) : nat + exn :=
   match first_prefix math_delims (c :: r) with
   | Some n => inl n
   | None =>
     if N.eqb c macro_escape_char then
-      let be := if startswith r (lit "begin") then Some 5
-                else if startswith r (lit "end") then Some 3 else None in
+      let be := if startswith r s_begin then Some 5
+                else if startswith r s_end then Some 3 else None in
       let is_env := match be with
                     | Some n => match skipn n r with
                                 | [] => true
